@@ -48,13 +48,14 @@ VARIABLES rc,        \* [be, sizes, thr1, thr2, lim1, lim2, mode]
           widx,      \* next destination file to write
           stale,     \* initializers whose source was read after its file had been replaced
           out,       \* "running" | "returned" | "refused"
-          final      \* per initializer: content a load of the re-saved model yields
-rvars == <<rc, files, src, mem, step, widx, stale, out, final>>
+          final,     \* per initializer: content a load of the re-saved model yields
+          lay1, lay2 \* Layout of the first / the second save (computed once)
+rvars == <<rc, files, src, mem, step, widx, stale, out, final, lay1, lay2>>
 
-C1 == [be |-> rc.be, sizes |-> rc.sizes, thr |-> rc.thr1, al |-> NoneV, athr |-> 0, lim |-> rc.lim1]
-C2 == [be |-> rc.be, sizes |-> rc.sizes, thr |-> rc.thr2, al |-> NoneV, athr |-> 0, lim |-> rc.lim2]
-L1 == Layout(C1, "design")
-L2 == Layout(C2, "design")
+C1of(r) == [be |-> r.be, sizes |-> r.sizes, thr |-> r.thr1, al |-> NoneV, athr |-> 0, lim |-> r.lim1]
+C2of(r) == [be |-> r.be, sizes |-> r.sizes, thr |-> r.thr2, al |-> NoneV, athr |-> 0, lim |-> r.lim2]
+L1 == lay1
+L2 == lay2
 N == Len(rc.sizes)
 
 FileId(base, n, k) == <<base, n, k>>
@@ -79,6 +80,8 @@ RInit ==
   /\ rc \in {[be |-> be, sizes |-> s, thr1 |-> t1, thr2 |-> t2, lim1 |-> l1, lim2 |-> l2, mode |-> m] :
                be \in {"raw", "st"}, s \in UNION {[1..n -> RSizes] : n \in 1..RMaxLen},
                t1 \in RThr, t2 \in RThr, l1 \in RLim, l2 \in RLim, m \in {"inplace", "other"}}
+  /\ lay1 = Layout(C1of(rc), "design")
+  /\ lay2 = Layout(C2of(rc), "design")
   /\ files = [f \in {FileId("old", L1.nf, k) : k \in 1..L1.nf} |->
                 {[o |-> L1.t[i].o, l |-> L1.t[i].l, b |-> B(i)] : i \in {j \in 1..N : L1.t[j].f = f[3]}}]
   /\ src = [i \in 1..N |-> IF L1.t[i].f = 0 THEN [k |-> "mem"]
@@ -87,7 +90,7 @@ RInit ==
   /\ step = "split" /\ widx = 1 /\ stale = {} /\ out = "running"
   /\ final = [i \in 1..N |-> None3]
 
-Split == step = "split" /\ step' = "load1" /\ UNCHANGED <<rc, files, src, mem, widx, stale, out, final>>
+Split == step = "split" /\ step' = "load1" /\ UNCHANGED <<lay1, lay2, rc, files, src, mem, widx, stale, out, final>>
 
 LoadSmall == [i \in 1..N |-> IF i \in ToMem2 THEN ReadSrc(i) ELSE mem[i]]
 StaleNow(S) == {i \in S : src[i].k = "ext" /\ ReadSrc(i) # B(i)}
@@ -99,7 +102,7 @@ Load1 ==
      THEN mem' = LoadSmall /\ stale' = stale \cup StaleNow(ToMem2)
      ELSE UNCHANGED <<mem, stale>>
   /\ step' = "guard"
-  /\ UNCHANGED <<rc, files, src, widx, out, final>>
+  /\ UNCHANGED <<lay1, lay2, rc, files, src, widx, out, final>>
 
 \* st, "all-first": every source is read before the first shard file is written
 Guard ==
@@ -110,7 +113,7 @@ Guard ==
           /\ IF rc.be = "st" /\ StMaterialise = "all-first"
              THEN mem' = [i \in 1..N |-> IF i \in ToExt2 THEN ReadSrc(i) ELSE mem[i]] /\ stale' = stale \cup StaleNow(ToExt2)
              ELSE UNCHANGED <<mem, stale>>
-  /\ UNCHANGED <<rc, files, src, widx, final>>
+  /\ UNCHANGED <<lay1, lay2, rc, files, src, widx, final>>
 
 \* one destination file per step: the shard's tensors are read (streamed / tobytes) and the file is replaced
 Write ==
@@ -125,7 +128,7 @@ Write ==
                              ELSE files[f]]
               /\ stale' = stale \cup {i \in S : mem[i] = None3 /\ src[i].k = "ext" /\ ReadSrc(i) # B(i)}
               /\ widx' = widx + 1 /\ step' = step
-  /\ UNCHANGED <<rc, src, mem, out, final>>
+  /\ UNCHANGED <<lay1, lay2, rc, src, mem, out, final>>
 
 \* the refuted ordering: small external tensors are copied into memory only now
 Load2 ==
@@ -134,7 +137,7 @@ Load2 ==
      THEN mem' = LoadSmall /\ stale' = stale \cup StaleNow(ToMem2)
      ELSE UNCHANGED <<mem, stale>>
   /\ step' = "finish" /\ out' = "returned"
-  /\ UNCHANGED <<rc, files, src, widx, final>>
+  /\ UNCHANGED <<lay1, lay2, rc, files, src, widx, final>>
 
 \* what a load of the result yields (after a refusal: the first save is still what is on disk)
 SegContent(f, o, l) == ReadFrom(files, f, o, l)
@@ -145,7 +148,7 @@ Finish ==
        ELSE IF L2.t[i].f # 0 THEN SegContent(Dest(L2.t[i].f), L2.t[i].o, L2.t[i].l)
        ELSE IF src[i].k = "mem" THEN B(i) ELSE mem[i]]
   /\ step' = "done"
-  /\ UNCHANGED <<rc, files, src, mem, widx, stale, out>>
+  /\ UNCHANGED <<lay1, lay2, rc, files, src, mem, widx, stale, out>>
 
 RNext == Split \/ Load1 \/ Guard \/ Write \/ Load2 \/ Finish
 RSpec == RInit /\ [][RNext]_rvars
